@@ -23,8 +23,53 @@ def parse_tree(text):
     return parser.start()
 
 
+# A hostile load history (C12 says it must not matter): scripts that succeed or fail at every stage while using the names the
+# menus use, with other types.  It is replayed in front of every load whose text has a checksum divisible by HOSTILE_EVERY, so a
+# replay of a recorded case sees exactly the history it saw in the check.  The expected outcome never depends on it.
+HOSTILE_EVERY = 4
+HOSTILE = [
+    # succeeds: list keywords, strings and booleans, names of the menus with other types
+    'name h0\nversion 1.0\ntarget dev (shots=3, l=[1, 2])\nstr s = "t"\nbool b = True\ncomplex x = 1+2j\nint array A =\n    7, 8, 9\n'
+    'MeasureFock(dark_counts=[0.1, 0.2], on=True, nm="t") | [0, 1]\nG(x, A[2], b, s) | 5\n',
+    # a tdm script with p-arrays and parameters that fails at an undefined name (BlackbirdSyntaxError)
+    'name h1\nversion 1.0\ntype tdm (temporal_modes=2)\nfloat array p0 =\n    1.5, 2.5\nfloat array p1 =\n    3.5, 4.5\nfloat array p2 =\n    0.5, 0.25\n'
+    'int i = 7\nint n = 3\nint m = 2\nfloat f = 0.75\nfloat y = 9.5\nfloat alpha = 0.125\nfloat array M =\n    {b}, 2\nG(p0, p1, {a}, {p}, {alpha}) | 0\nG(undefined_name_h1) | 1\n',
+    # fails inside a loop body, second iteration (IndexError), loop variable bound, deferred body present
+    'name h2\nversion 1.0\ntype tdm\nfloat array p0 =\n    1.5, 2.5\nfloat array U =\n    1, 2\nfloat array W =\n    1, 2\n'
+    'for int j in 0:4\n    G(U[j], {w}) | j\n',
+    # fails with a ValueError (loop value of the wrong type) after p-arrays and parameters were seen
+    'name h3\nversion 1.0\ntype tdm\nfloat array p0 =\n    1.5, 2.5\nfloat array p3 =\n    1.5, 2.5\nfloat v = {v}\nfor int k in [0, 1.5]\n    G(k, {c}) | k\n',
+    # fails at the syntax stage, first token; and at a later token
+    '*',
+    'name h4\nversion 1.0\nVac | 0 1\n',
+    'name h5\nversion 1.0\nfloat abc = "s" +\n',
+]
+
+
+def hostile_history(rot=0):
+    rot %= len(HOSTILE)
+    for t in HOSTILE[rot:] + HOSTILE[:rot]:
+        try:
+            with warnings.catch_warnings():
+                warnings.simplefilter("ignore")
+                blackbird.loads(t)
+        except BaseException as e:      # noqa: BLE001
+            if isinstance(e, (KeyboardInterrupt, SystemExit)):
+                raise
+
+
+def wants_hostile(text):
+    """None, or the rotation of the hostile history to replay in front of this text"""
+    import zlib
+    c = zlib.crc32(text.encode("utf-8", "replace"))
+    return c // HOSTILE_EVERY if (HOSTILE_EVERY > 0 and c % HOSTILE_EVERY == 0) else None
+
+
 def loads(text):
     """-> ("ok", program) | ("raise", exception class name, message)"""
+    rot = wants_hostile(text)
+    if rot is not None:
+        hostile_history(rot)
     try:
         with warnings.catch_warnings():
             warnings.simplefilter("ignore")
